@@ -349,7 +349,7 @@ func firstDiff(a, b string) int {
 	return len(x)
 }
 
-const concScheduleCap = 20000
+const concScheduleCap = 4000
 
 func concMain(args []string) {
 	if len(args) < 1 {
@@ -366,7 +366,7 @@ func concMain(args []string) {
 		os.Exit(0)
 	}
 	r := rep.Start(id, tier, "exploration")
-	schedules, points, accesses, capped := 0, 0, 0, 0
+	schedules, points, accesses, capped, boundedOnly := 0, 0, 0, 0, 0
 	outcomes := map[string]bool{}
 	for _, sc := range scs {
 		// every caller alone (a fresh single-thread run each): the sequential reference
@@ -384,6 +384,8 @@ func concMain(args []string) {
 			}
 		}
 		n := 0
+		bound := 2
+		reported := map[string]bool{}
 		var rec func(prefix []int)
 		rec = func(prefix []int) {
 			if n >= concScheduleCap {
@@ -402,20 +404,47 @@ func concMain(args []string) {
 					r.HarnessError("concurrent stage not deterministic for scenario " + sc.Name)
 				} else {
 					for _, f := range fs {
-						r.Report("concurrent-stage", map[string]any{"scenario": sc.Name, "schedule": ch}, f)
+						if !reported[f.Key] { // one witness schedule per finding and scenario
+							reported[f.Key] = true
+							r.Report("concurrent-stage", map[string]any{"scenario": sc.Name, "schedule": ch}, f)
+						}
 					}
 				}
 			}
-			for i := len(prefix); i < len(res.Points); i++ {
-				for alt := 1; alt < len(res.Points[i].Enabled); alt++ {
-					rec(append(append([]int{}, ch[:i]...), alt))
+			pre := 0
+			for i := 0; i < len(res.Points); i++ {
+				p := res.Points[i]
+				if i >= len(prefix) {
+					for alt := 1; alt < len(p.Enabled); alt++ {
+						cost := pre
+						if p.Running != 0 && len(p.Enabled) > 0 && p.Enabled[0] == p.Running {
+							cost++ // switching away from a caller that could go on
+						}
+						if bound >= 0 && cost > bound {
+							continue
+						}
+						rec(append(append([]int{}, ch[:i]...), alt))
+					}
+				}
+				if p.Chosen > 0 && p.Running != 0 && p.Enabled[0] == p.Running {
+					pre++
 				}
 			}
 		}
+		// every schedule with at most two preemptions first; then, when that space was small, all of them
 		rec(nil)
-		if n >= concScheduleCap {
-			capped++
+		total := n
+		if n < concScheduleCap/4 {
+			n, bound = 0, -1
+			rec(nil)
+			total += n
+			if n >= concScheduleCap {
+				capped++
+			}
+		} else {
+			boundedOnly++
 		}
+		n = total
 		r.Eval(uint64(n))
 		r.Distinct(sc.Name)
 	}
@@ -426,12 +455,16 @@ func concMain(args []string) {
 	r.Note("schedules_explored", schedules)
 	r.Note("scheduling_points", points)
 	r.Note("access_probes_executed", accesses)
-	r.Note("exhaustive", capped == 0)
+	r.Note("exhaustive", capped == 0 && boundedOnly == 0)
+	r.Note("preemption_bounds_completed", map[bool]string{true: "2, then unbounded (every scenario explored to completion)", false: "2 (some scenario was too large to finish unbounded, see the caps)"}[capped == 0 && boundedOnly == 0])
+	if boundedOnly > 0 {
+		r.Note("scenarios_explored_to_preemption_bound_2_only", boundedOnly)
+	}
 	if capped > 0 {
 		r.Note("scenarios_stopped_at_schedule_cap", capped)
 		r.Note("schedule_cap", concScheduleCap)
 	}
-	os.Exit(r.FinishMerge("concurrent_stage", "schedule exploration of the property's operations called by 2-3 (thorough: 4) callers at once on objects of their own, in the instrumented build under the cooperative scheduler: every lock operation of the library is a scheduling point, all interleavings at those points are explored (DFS over choice prefixes, unbounded preemptions; every start order when the code takes no lock); on every schedule: no unordered conflicting access to anything both callers reach (package-level variables, shared tables, caches, pools - vector-clock monitor over every access probe), no deadlock, no panic, and every caller's results equal the results of its call made alone; each body is also run twice in a row alone and must repeat itself"))
+	os.Exit(r.FinishMerge("concurrent_stage", "schedule exploration of the property's operations called by 2-3 (thorough: 4) callers at once on objects of their own, in the instrumented build under the cooperative scheduler: every lock operation of the library is a scheduling point, all interleavings at those points are explored (DFS over choice prefixes: first every schedule with at most 2 preemptions, then unbounded - which is every start order when the code takes no lock; a scenario whose bounded space exceeds 1,000 schedules is left at bound 2 and reported as such); on every schedule: no unordered conflicting access to anything both callers reach (package-level variables, shared tables, caches, pools - vector-clock monitor over every access probe), no deadlock, no panic, and every caller's results equal the results of its call made alone; each body is also run twice in a row alone and must repeat itself"))
 }
 
 func concReplay(path string) {
